@@ -513,7 +513,9 @@ func (c *Client) reconnect(ctx context.Context) error {
 func (c *Client) doRountrip(ctx context.Context, msg *kmip.RequestMessage) (*kmip.ResponseMessage, error) {
 	c.lock.Lock()
 	defer c.lock.Unlock()
-	if c.conn == nil {
+	// A connection that a previous call left broken (reset, undecodable response, ...) is replaced:
+	// only end-of-stream errors are retried within a call, but no failure is allowed to stick.
+	if c.conn == nil || c.conn.broken() {
 		if err := c.reconnect(ctx); err != nil {
 			return nil, err
 		}
